@@ -233,12 +233,21 @@ func init() {
 		}
 		r := rand.New(rand.NewSource(o.seed))
 		cast := newCast(o.seed * 13)
-		signers := []*Prin{cast.Ed("svc"), cast.RSA("svcrsa", 0), cast.Wrapped("svcweb", "did:web:service.example", cast.Ed("svckey"))}
+		signers := []*Prin{cast.Ed("svc"), cast.RSA("svcrsa", 0), cast.Wrapped("svcweb", "did:web:service.example", cast.Ed("svckey")),
+			// issuers of other DID methods (names that begin with letters of "did:") keep their name through the codec
+			cast.Wrapped("svcdns", "did:dns:service.example", cast.Ed("svckey2")), cast.Wrapped("svcion", "did:ion:EiClkZMDxPKqC9c-umQfTkR8", cast.Ed("svckey3"))}
 		others := []*Prin{cast.Ed("other"), cast.RSA("otherrsa", 1)}
 		cst := newCborStats()
 		far := int(ucan.Now()) + 100000
 		var cases []string
 		var direct []map[string]any
+		for name, lit := range map[string]string{"svcweb": "did:web:service.example", "svcdns": "did:dns:service.example", "svcion": "did:ion:EiClkZMDxPKqC9c-umQfTkR8"} {
+			for _, sg := range signers {
+				if sg.Name == name && (sg.DID.String() != lit || sg.Signer.DID().String() != lit) {
+					direct = append(direct, map[string]any{"receipt": -1, "shape": "issuer " + name, "what": "read-back differs from what was issued: an issuer wrapped under " + lit + " names itself " + sg.Signer.DID().String()})
+				}
+			}
+		}
 		altHist := map[string]int{}
 		shapeHist := map[string]int{}
 		var samples []any
@@ -453,6 +462,9 @@ func init() {
 					"sig-size-minus-one": cat(uvarintBytes(code), uvarintBytes(uint64(len(raw))-1), raw),
 					"sig-size-padded":    cat(uvarintBytes(code), padded(uint64(len(raw))), raw),
 					"sig-code-padded":    cat(padded(code), uvarintBytes(uint64(len(raw))), raw),
+					// the same raw bytes declared under ANOTHER algorithm's code (EdDSA <-> RS256) and under an unknown one
+					"sig-code-other-algorithm": cat(uvarintBytes(map[uint64]uint64{signature.EdDSA: signature.RS256}[code]+map[bool]uint64{true: signature.EdDSA}[code != signature.EdDSA]), uvarintBytes(uint64(len(raw))), raw),
+					"sig-code-unknown":         cat(uvarintBytes(0x1234), uvarintBytes(uint64(len(raw))), raw),
 				} {
 					altHist[name]++
 					nverify++
